@@ -291,7 +291,18 @@ fn check_point(cx: &mut Ctx, s: &dyn DynSampler, cached_spec: Option<f64>, ri: u
     let (e, l, d) = (line.e, line.l, line.d);
     let (sig, p) = &line.routings[ri];
     let ed: EdgeData<f64> = (0..e).map(|i| (if line.m[i] != 0.0 || (i + ri) % 2 == 0 { Some(line.m[i]) } else { None }, p[i].clone())).collect();
-    let out = s.sample_f64(&pt.x, &ed, &Settings::new(stab, true, true));
+    // every other point carries two surplus coordinates (C14: coordinates beyond get_dimension() are ignored): a defect that
+    // shifts the reads then shows as a wrong value under the property it breaks, not only as an out-of-bounds panic
+    let surplus = pt.x.first().map(|v| v.to_bits() & 1 == 1).unwrap_or(false);
+    let out = if surplus {
+        let mut xx = pt.x.clone();
+        xx.push(0.37109375);
+        xx.push(0.8125);
+        cx.sm.count("points_with_surplus_coordinates");
+        s.sample_f64(&xx, &ed, &Settings::new(stab, true, true))
+    } else {
+        s.sample_f64(&pt.x, &ed, &Settings::new(stab, true, true))
+    };
     cx.sm.evaluations += 1;
     cx.sm.count(&format!("outcome_{}", out.outcome.name()));
     let x = &pt.x;
